@@ -925,6 +925,8 @@ def setup(ctx):
 def run(ctx):
     setup(ctx)
     ctx.check_theorems()
+    if ctx.tier == "thorough":
+        ctx.coqchk(["Eupsv.Props.C16"])
     cases = corpus_cases()
     rng = ctx.rng
     for _ in range(ctx.size(2500, 60000)):
